@@ -161,14 +161,32 @@ TransformDefs(c) ==
     [] c.t[1] = "let"  -> {c.t[2][i][1] : i \in DOMAIN c.t[2]} \ {"_"}
     [] c.t[1] = "do"   -> {c.t[3][i][1] : i \in DOMAIN c.t[3]} \ {"_"}
 HeadAvail(c) ==
-  CASE c.t[1] = "do" -> Range(c.t[2]) \cup TransformDefs(c)
+  CASE c.t[1] = "do" -> Ran(c.t[2]) \cup TransformDefs(c)
     [] OTHER -> BodyVars(c) \cup TransformDefs(c)
+
+\* statement i of a let-transform may use body variables and earlier let variables, and
+\* must not redefine a body variable
+LetOK(c) ==
+  \A i \in DOMAIN c.t[2] :
+     /\ TermVars(c.t[2][i][2]) \subseteq BodyVars(c) \cup {c.t[2][j][1] : j \in 1..(i - 1)}
+     /\ c.t[2][i][1] \notin BodyVars(c)
+IsReducer(f) == f \in {"fn:count", "fn:sum", "fn:max", "fn:min", "fn:avg", "fn:count_distinct",
+                       "fn:collect_distinct", "fn:collect", "fn:pick_any"}
+\* a reducer folds body variables; any other statement may use the key and earlier definitions
+DoOK(c) ==
+  /\ Ran(c.t[2]) \subseteq BodyVars(c)
+  /\ \A i \in DOMAIN c.t[3] :
+       /\ c.t[3][i][1] \notin BodyVars(c)
+       /\ IF IsReducer(c.t[3][i][2]) THEN SeqVars(c.t[3][i][3]) \subseteq BodyVars(c)
+          ELSE SeqVars(c.t[3][i][3]) \subseteq Ran(c.t[2]) \cup {c.t[3][j][1] : j \in 1..(i - 1)}
 
 \* Safety: the scheduler never gets stuck and every head variable receives a value.
 Safe(c) ==
-  /\ 0 \notin Range(Schedule(c.b, DOMAIN c.b, {}))
+  /\ 0 \notin Ran(Schedule(c.b, DOMAIN c.b, {}))
   /\ AtomVars(c.h) \subseteq HeadAvail(c)
-  /\ c.t[1] = "do" => Range(c.t[2]) \subseteq BodyVars(c)
+  /\ ~\E i \in DOMAIN c.h.a : IsWild(c.h.a[i])
+  /\ c.t[1] = "let" => LetOK(c)
+  /\ c.t[1] = "do" => DoOK(c)
 
 RECURSIVE SolveOrder(_, _, _, _)
 SolveOrder(body, order, S, I) ==
@@ -194,14 +212,13 @@ ApplyLets(stmts, i, s) ==
 (* variables and fold each reducer over the group.                         *)
 (***************************************************************************)
 RestrictTo(s, X) == [x \in X \cap DOMAIN s |-> s[x]]
-GroupRows(c, rows, key) == {s \in rows : RestrictTo(s, Range(c.t[2])) = key}
+GroupRows(c, rows, key) == {s \in rows : RestrictTo(s, Ran(c.t[2])) = key}
 
 RECURSIVE ApplyReducers(_, _, _, _)
 ApplyReducers(stmts, i, s, rowseq) ==
   IF i > Len(stmts) THEN s
   ELSE LET st == stmts[i]
-           isRed == st[2] \in {"fn:count", "fn:sum", "fn:max", "fn:min", "fn:avg",
-                               "fn:count_distinct", "fn:collect_distinct"}
+           isRed == IsReducer(st[2])
            val == IF isRed
                   THEN Reduce(st[2], [k \in DOMAIN rowseq |->
                                         IF Len(st[3]) = 0 THEN <<"row", k>> ELSE EvalTerm(st[3][1], rowseq[k])])
@@ -210,7 +227,7 @@ ApplyReducers(stmts, i, s, rowseq) ==
 
 Aggregate(c, I) ==
   LET rows == {RestrictTo(s, BodyVars(c)) : s \in BodySols(c, I)}
-      keys == {RestrictTo(s, Range(c.t[2])) : s \in rows} IN
+      keys == {RestrictTo(s, Ran(c.t[2])) : s \in rows} IN
   {Inst(c.h, ApplyReducers(c.t[3], 1, k, SetToSeq(GroupRows(c, rows, k)))) : k \in keys}
 
 \* facts derived by one application of a clause to interpretation I
@@ -220,6 +237,48 @@ Derive(c, I) ==
     [] c.t[1] = "do"   -> Aggregate(c, I)
 
 IsDo(c) == c.t[1] = "do"
+
+---------------------------------------------------------------------------
+(***************************************************************************)
+(* Run-time errors.  The documentation fixes the meaning of a rule only    *)
+(* when its built-ins receive arguments of the right kind; the engine      *)
+(* reports an error otherwise.  ErrLit says when literal l, reached with   *)
+(* substitution s, is such an error; HasErr says whether evaluating the    *)
+(* rules over interpretation I (left to right in ready order, as the       *)
+(* engine does) reaches one.  Programs with HasErr have no model to        *)
+(* compare against and are classified, not judged.                         *)
+(***************************************************************************)
+ApErr(t, s) == IsAp(t) /\ TermVars(t) \subseteq DOMAIN s /\ IsErr(EvalTerm(t, s))
+OutputTaken(t, s) == ~IsVar(t) \/ (t[2] # "_" /\ t[2] \in DOMAIN s)
+ErrLit(l, s) ==
+  CASE l[1] \in {"lt", "le", "gt", "ge"} ->
+         LET lv == EvalTerm(l[2], s)  rv == EvalTerm(l[3], s) IN
+         ~(IsVal(lv) /\ IsVal(rv) /\ IsNum(lv) /\ IsNum(rv))
+    [] l[1] \in {"eq", "ne"} -> ApErr(l[2], s) \/ ApErr(l[3], s)
+    [] l[1] = "bi" ->
+         CASE l[2] = ":list:member" ->
+                LET m == EvalTerm(l[3][1], s)  lst == EvalTerm(l[3][2], s) IN
+                ~IsVal(lst) \/ (IsVal(m) /\ ~IsList(lst))
+           [] l[2] \in {":match_pair", ":match_cons"} ->
+                OutputTaken(l[3][2], s) \/ OutputTaken(l[3][3], s) \/ ~IsVal(EvalTerm(l[3][1], s))
+           [] OTHER -> ~IsVal(EvalTerm(l[3][1], s))
+    [] OTHER -> \E i \in DOMAIN l[2].a : ApErr(l[2].a[i], s)
+
+RECURSIVE ErrOrder(_, _, _, _)
+ErrOrder(body, order, S, I) ==
+  IF order = <<>> \/ S = {} THEN FALSE
+  ELSE \/ \E s \in S : ErrLit(body[Head(order)], s)
+       \/ ErrOrder(body, Tail(order), UNION {Sols(body[Head(order)], s, I) : s \in S}, I)
+
+TransformErr(c, I) ==
+  CASE c.t[1] = "let" -> \E s \in BodySols(c, I) :
+                            \E i \in DOMAIN c.t[2] : IsErr(EvalTerm(c.t[2][i][2], ApplyLets(c.t[2], 1, s)))
+    [] OTHER -> FALSE
+HeadErr(c, I) == c.t[1] = "none" /\ \E s \in BodySols(c, I) : \E i \in DOMAIN c.h.a : ApErr(c.h.a[i], s)
+
+HasErr(rules, I) ==
+  \E c \in rules : \/ ErrOrder(c.b, Schedule(c.b, DOMAIN c.b, {}), {NoSub}, I)
+                    \/ TransformErr(c, I) \/ HeadErr(c, I)
 
 ---------------------------------------------------------------------------
 \* Dependency graph and stratification (meaning, not algorithm).
@@ -255,7 +314,7 @@ Lfp(rules, I, fuel) ==
 
 RECURSIVE ModelFrom(_, _, _, _, _)
 ModelFrom(rules, lv, k, I, fuel) ==
-  IF k > MaxOf({0} \cup Range(lv)) THEN I
+  IF k > MaxOf({0} \cup Ran(lv)) THEN I
   ELSE LET here == {r \in rules : lv[r.h.p] = k}
            doFacts == UNION {Derive(r, I) : r \in {x \in here : IsDo(x)}}
            J == Lfp({x \in here : ~IsDo(x)}, I \cup doFacts, fuel)
